@@ -120,6 +120,79 @@ func checkC03(c *Check) {
 			}
 		}
 	})
+	// the same set expressed through a predicate helper: `if gotNewLine && isX(next.GetTokenType()) { return next }`
+	eachInstr(pump, func(b *ssa.BasicBlock, i ssa.Instruction) {
+		call, ok := i.(*ssa.Call)
+		if !ok {
+			return
+		}
+		h := staticCallee(call)
+		if h == nil || !isRepoFn(h) || len(h.Blocks) == 0 || h.Signature.Results().Len() != 1 || len(call.Call.Args) != 1 {
+			return
+		}
+		if bt, ok := h.Signature.Results().At(0).Type().Underlying().(*types.Basic); !ok || bt.Kind() != types.Bool {
+			return
+		}
+		isType := false
+		for _, tc := range typeCalls {
+			if call.Call.Args[0] == tc {
+				isType = true
+			}
+		}
+		if !isType {
+			return
+		}
+		// its true outcome must lead to the return of the token, under the pending-line-break guard
+		leads := false
+		for _, br := range branchesOn(call) {
+			t := br.TrueSucc
+			for steps := 0; steps < 12 && len(t.Instrs) == 1; steps++ {
+				if _, ok := t.Instrs[0].(*ssa.Jump); ok {
+					t = t.Succs[0]
+				} else {
+					break
+				}
+			}
+			if _, ok := t.Instrs[len(t.Instrs)-1].(*ssa.Return); ok && (guardedByField(b, "gotNewLine") || guardedByField(br.If.Block(), "gotNewLine")) {
+				leads = true
+			}
+		}
+		if !leads {
+			return
+		}
+		// constants for which the helper returns true
+		eachInstr(h, func(_ *ssa.BasicBlock, j ssa.Instruction) {
+			bin, ok := j.(*ssa.BinOp)
+			if !ok || bin.Op != token.EQL {
+				return
+			}
+			var k int64
+			var okK bool
+			if bin.X == ssa.Value(h.Params[0]) {
+				k, okK = constInt(bin.Y)
+			} else if bin.Y == ssa.Value(h.Params[0]) {
+				k, okK = constInt(bin.X)
+			}
+			if !okK {
+				return
+			}
+			for _, br := range branchesOn(bin) {
+				t := br.TrueSucc
+				for steps := 0; steps < 12 && len(t.Instrs) == 1; steps++ {
+					if _, ok := t.Instrs[0].(*ssa.Jump); ok {
+						t = t.Succs[0]
+					} else {
+						break
+					}
+				}
+				if ret, ok := t.Instrs[len(t.Instrs)-1].(*ssa.Return); ok && len(ret.Results) == 1 {
+					if cv, ok := ret.Results[0].(*ssa.Const); ok && cv.Value != nil && cv.Value.String() == "true" {
+						B[k] = true
+					}
+				}
+			}
+		})
+	})
 	names := sortedKeys(A)
 	c.Counts["newline_recording_actions"] = len(A)
 	c.Counts["bypassed_token_types"] = len(B)
